@@ -4,7 +4,7 @@
    reader.go); spec: C13Spec.v (escape / unescape / forbidden), C13Bits.v (bit lists). *)
 From V.lib Require Import Base.
 From V.c13 Require Import C13Spec C13Model C13Bits C13EscProofs C13MarkProofs
-  C13WriterProofs C13ReaderProofs C13RoundTrip.
+  C13WriterProofs C13ReaderProofs C13RoundTrip C13PlainProofs.
 
 (* ---- emulation prevention, byte level, every byte string ---- *)
 Theorem C13_unescape_escape : forall l : list N, unescape (escape l) = l.
@@ -119,6 +119,20 @@ Theorem C13_reader_inverse : forall ops,
   exists s', run_reader (map rop_of ops) (rinit data) = (map rval_of ops, s') /\ rerr s' = false.
 Proof. exact reader_inverse. Qed.
 Print Assumptions C13_reader_inverse.
+
+(* ---- bits.Writer / FixedSliceWriter.WriteBits + Flush, read back with bits.Reader ---- *)
+Theorem C13_plain_roundtrip : forall ops,
+  forallb plain_op ops = true ->
+  let data := wout (flush_plain (run_writer_plain ops)) in
+  exists s', fold_left (fun '(acc, st) o =>
+               match o with
+               | WBits _ w => let '(v, st') := read_plain st w in (acc ++ [v], st')
+               | _ => let '(v, st') := read_plain st 1 in (acc ++ [v], st')
+               end) ops ([], rinit data)
+             = (map (fun o => match o with WBits v _ => v | WFlag b => N.b2n b | _ => 0 end) ops, s')
+             /\ rerr s' = false.
+Proof. exact plain_roundtrip. Qed.
+Print Assumptions C13_plain_roundtrip.
 
 (* ---- non-vacuity: concrete non-trivial instances ---- *)
 Example ex_ops : list wop := [WBits 0 16; WBits 3 8; WUe 4294967294; WSe (-7)%Z; WFlag true; WBits 0 24; WBits 1 7].
